@@ -117,8 +117,21 @@ def columns_of(src):
         sel = src[2].get('sel')
         if not sel:
             return columns_of(src[1])
-        return [(f, kind_of(f)) for f in sel]
+        inner = _refs_in(src[1])
+        return [(f, kind_of(f, inner)) for f in sel]
     raise ValueError(tag)
+
+
+def _refs_in(src, env=None):
+    """Reference name -> referenced source description (references visible in the scope of a query over src)."""
+    env = {} if env is None else env
+    t = src[0]
+    if t == 'ref':
+        env[src[2]] = src[1]
+    elif t in ('join', 'set'):
+        _refs_in(src[2], env)
+        _refs_in(src[3], env)
+    return env
 
 
 def named_columns(src):
@@ -139,24 +152,26 @@ def feature_name(f):
     return None
 
 
-def kind_of(f):
+def kind_of(f, refs=None):
     tag = f[0]
     if tag == 'col':
         return dict(CATALOG[f[1]])[f[2]]
     if tag == 'elem':
+        if refs and f[1] in refs:
+            return dict(named_columns(refs[f[1]])).get(f[2], 'int')
         return f[3] if len(f) > 3 else 'int'
     if tag == 'lit':
         v = f[1]
         return 'bool' if isinstance(v, bool) else 'int' if isinstance(v, int) else 'float' if isinstance(v, float) else 'str'
     if tag == 'alias':
-        return kind_of(f[1])
+        return kind_of(f[1], refs)
     if tag == 'not':
         return 'bool'
     if tag == 'agg':
-        return 'int' if f[1] == 'count' else kind_of(f[2])
+        return 'int' if f[1] == 'count' else kind_of(f[2], refs)
     if tag == 'bin':
         if f[1] in ARITH:
-            ka, kb = kind_of(f[2]), kind_of(f[3])
+            ka, kb = kind_of(f[2], refs), kind_of(f[3], refs)
             return 'float' if 'float' in (ka, kb) else 'int'
         return 'bool'
     raise ValueError(tag)
